@@ -80,6 +80,14 @@ type connState struct {
 	dl   []dlCall
 	wd   time.Time
 	wdCh chan struct{}
+	// round D: a transport that honours the write deadline on every Write (honourWd), and an
+	// adversarial but legal scheduler for deadline calls (hold, see SetWriteDeadline)
+	honourWd bool
+	hold     bool
+	inflight int // deadline calls that have not returned yet
+	nZero    int // calls that cleared the write deadline
+	nDone    int // Writes that have completed
+	opBase   int // nDone when the current operation began
 }
 
 func (cs *connState) setGate(g chan struct{}) {
@@ -102,7 +110,16 @@ func (c conn) Write(p []byte) (int, error) {
 	}
 	c.st.mu.Lock()
 	gate, entered := c.st.gate, c.st.entered
+	expired := c.st.honourWd && !c.st.wd.IsZero() && time.Until(c.st.wd) <= 0
 	c.st.mu.Unlock()
+	if expired {
+		return 0, os.ErrDeadlineExceeded
+	}
+	defer func() {
+		c.st.mu.Lock()
+		c.st.nDone++
+		c.st.mu.Unlock()
+	}()
 	if gate != nil {
 		entered <- struct{}{}
 		if err := c.st.waitGate(gate); err != nil {
@@ -867,6 +884,24 @@ func Run(r *common.Run) error {
 				}
 				c.whist(fa, strings.Split(f[3], ","))
 			}
+			if len(f) == 4 && f[0] == "C10" && f[1] == "tee" {
+				k := -1
+				if f[2] != "-" {
+					fmt.Sscan(f[2], &k)
+				}
+				c.teeHist(k, strings.Split(f[3], ","))
+			}
+			if len(f) == 3 && f[0] == "C10" && f[1] == "wdl" {
+				c.wdlHist(strings.Split(f[2], ","))
+			}
+			if len(f) == 4 && f[0] == "C10" && f[1] == "held" {
+				c.heldReader(f[2], f[3])
+			}
+			if len(f) >= 1 && strings.HasPrefix(f[0], "#scenario=tokenwriter-held") {
+				c.heldWriter(true)
+				c.heldWriter(false)
+				continue
+			}
 			if len(f) >= 1 && strings.HasPrefix(f[0], "#scenario=") {
 				c.schedules(true)
 				for i := 0; i < 3; i++ {
@@ -896,6 +931,7 @@ func Run(r *common.Run) error {
 	}
 	r.Mark("case close-blocked")
 	c.closeBlocked()
+	c.envCases()
 	r.Mark("case abandoned transmit calls")
 	for i, op := range abandonOps {
 		for k, kind := range abandonKinds {
